@@ -98,7 +98,11 @@ func genRequestScenario(prop string, rng *rand.Rand, o requestOpts) *sim.Scenari
 	sc := &sim.Scenario{Property: prop}
 	v := variantForRequest(p)
 	if v.Entry == "sack" {
-		lis := sim.Listener{Addr: c.Target, Permitted: true, Timestamps: chance(rng, 0.5), ISN: rng.Uint32(), ServerSeq: rng.Uint32()}
+		lisPort := c.Port
+		if lisPort == 0 {
+			lisPort = 33434
+		}
+		lis := sim.Listener{Addr: c.Target, Port: lisPort, Permitted: true, Timestamps: chance(rng, 0.5), ISN: rng.Uint32(), ServerSeq: rng.Uint32()}
 		sc.Listeners = append(sc.Listeners, lis)
 		c.Listener = 1
 	}
